@@ -31,6 +31,10 @@ type SSHInput struct {
 	Data      []hx.B   `json:"data"`  // client -> backend channel writes
 	Reply     []hx.B   `json:"reply"` // backend -> client channel writes
 	Texty     bool     `json:"texty"` // reply drawn from an alphabet the session recording renders unambiguously
+	// HalfClose: the client ends its direction (EOF) after its data; the backend writes its
+	// reply only once it has seen that end (after DelayMs more), then closes the channel
+	HalfClose bool `json:"half_close,omitempty"`
+	DelayMs   int  `json:"delay_ms,omitempty"`
 }
 
 type SSHObs struct {
@@ -57,6 +61,8 @@ type sshScript struct {
 	wantData int
 	reply    [][]byte
 	trigger  bool // reply starts at a shell/exec request (else when the channel opens)
+	afterEOF bool // reply only after the client's end of stream
+	delayMs  int
 }
 
 type sshSess struct {
@@ -168,7 +174,7 @@ func (b *sshBackend) session(ch ssh.Channel, reqs <-chan *ssh.Request, sc sshScr
 			}()
 		})
 	}
-	if !sc.trigger {
+	if !sc.trigger && !sc.afterEOF {
 		writeReply()
 	}
 	reqsDone := make(chan struct{})
@@ -182,7 +188,7 @@ func (b *sshBackend) session(ch ssh.Channel, reqs <-chan *ssh.Request, sc sshScr
 			if r.WantReply {
 				r.Reply(okTypes[r.Type], nil)
 			}
-			if r.Type == "shell" || r.Type == "exec" {
+			if (r.Type == "shell" || r.Type == "exec") && !sc.afterEOF {
 				writeReply()
 			}
 			n++
@@ -200,7 +206,7 @@ func (b *sshBackend) session(ch ssh.Channel, reqs <-chan *ssh.Request, sc sshScr
 	}
 	buf := make([]byte, 32768)
 	got := 0
-	for got < sc.wantData {
+	for got < sc.wantData || sc.afterEOF {
 		n, err := ch.Read(buf)
 		b.mu.Lock()
 		ss.data = append(ss.data, buf[:n]...)
@@ -215,6 +221,9 @@ func (b *sshBackend) session(ch ssh.Channel, reqs <-chan *ssh.Request, sc sshScr
 		case <-reqsDone:
 		case <-time.After(3 * time.Second):
 		}
+	}
+	if sc.delayMs > 0 {
+		time.Sleep(time.Duration(sc.delayMs) * time.Millisecond)
 	}
 	writeReply()
 	wg.Wait()
@@ -243,7 +252,7 @@ func (e *env) runSSH(in SSHInput, seq int) (SSHObs, string) {
 		}
 	}
 	be.mu.Lock()
-	be.scripts[in.User] = sshScript{accept: in.Accept, nReqs: len(in.Reqs), wantData: total, reply: reply, trigger: trig}
+	be.scripts[in.User] = sshScript{accept: in.Accept, nReqs: len(in.Reqs), wantData: total, reply: reply, trigger: trig, afterEOF: in.HalfClose, delayMs: in.DelayMs}
 	be.mu.Unlock()
 
 	sc, cc, err := tcpPair()
@@ -300,6 +309,9 @@ func (e *env) runSSH(in SSHInput, seq int) (SSHObs, string) {
 			if _, err := ch.Write(d); err != nil {
 				break
 			}
+		}
+		if in.HalfClose {
+			ch.CloseWrite()
 		}
 		select {
 		case <-rd:
@@ -416,6 +428,12 @@ func genSSHInputs(o hx.Opts, r *hx.Rand) []SSHInput {
 	ins = append(ins, SSHInput{User: "root-corpus", Passwords: []string{"toor"}, Accept: "toor",
 		Reqs: []SSHReq{{Type: "exec", Want: true, Payload: ssh.Marshal(struct{ Command string }{"cat /var/log/big"})}},
 		Data: nil, Reply: []hx.B{hx.B(r.Bytes(131072))}})
+	// corpus: "ssh host cmd < input": data, end of input, and only then the command's output (1 byte .. 128 KiB)
+	for i, sz := range []int{1, 4096, 131072} {
+		ins = append(ins, SSHInput{User: fmt.Sprintf("root-halfclose%d", i), Passwords: []string{"toor"}, Accept: "toor",
+			Reqs: []SSHReq{{Type: "exec", Want: true, Payload: ssh.Marshal(struct{ Command string }{"sort"})}},
+			Data: []hx.B{hx.B("b\na\n")}, Reply: []hx.B{hx.B(r.Bytes(sz))}, HalfClose: true, DelayMs: []int{0, 30, 0}[i]})
+	}
 	n := 14
 	if o.Tier != "quick" {
 		n = 90
@@ -455,6 +473,10 @@ func genSSHInputs(o hx.Opts, r *hx.Rand) []SSHInput {
 		for _, k := range randCuts(r, r.PickInt([]int{0, 1, 10, 100, 1000, 40000, 65536})) {
 			in.Reply = append(in.Reply, hx.B(mk(k)))
 		}
+		if r.Chance(1, 4) {
+			in.HalfClose = true
+			in.DelayMs = r.PickInt([]int{0, 0, 20, 50})
+		}
 		ins = append(ins, in)
 	}
 	return ins
@@ -493,9 +515,9 @@ func coqSSHCase(id int, in SSHInput, ob SSHObs) string {
 	for _, b := range ob.Replies {
 		reps = append(reps, hx.CoqBool(b))
 	}
-	return fmt.Sprintf("mkS %s %s %s %s %s %s %s %s\n     %s %s %s %s %s %s %s\n     %s %s %s %s %s %s",
+	return fmt.Sprintf("mkS %s %s %s %s %s %s %s %s %s\n     %s %s %s %s %s %s %s\n     %s %s %s %s %s %s",
 		hx.CoqN(uint64(id)), hx.CoqStr(in.User), hx.CoqList(pws, "bytes"), hx.CoqStr(in.Accept), coqSSHReqs(in.Reqs),
-		hx.CoqList(data, "bytes"), hx.CoqList(reply, "bytes"), hx.CoqBool(in.Texty),
+		hx.CoqList(data, "bytes"), hx.CoqList(reply, "bytes"), hx.CoqBool(in.Texty), hx.CoqBool(in.HalfClose),
 		hx.CoqBool(ob.ClientOK), coqCreds(ob.BAuth), hx.CoqN(uint64(ob.BConns)), coqSSHReqs(ob.BReqs), coqPacked(ob.BData), coqPacked(ob.CData), hx.CoqList(reps, "bool"),
 		coqCreds(ob.EvPw), hx.CoqList(evr, "bytes"), hx.CoqN(uint64(ob.EvChan)), hx.CoqN(uint64(ob.EvSess)), coqPacked(ob.Recording), hx.CoqBool(ob.EvSrcOK))
 }
@@ -518,6 +540,9 @@ func runSSHPart(o hx.Opts, r *hx.Rand, e *env, replay *Input) {
 			dist["authenticated"]++
 		} else {
 			dist["rejected"]++
+		}
+		if in.HalfClose {
+			dist["client-half-close"]++
 		}
 		dist["data:"+sizeClass(len(concatB(in.Data)))]++
 		dist["reply:"+sizeClass(len(concatB(in.Reply)))]++
